@@ -17,10 +17,11 @@ import P2sh.Spec.Format
                          renderer fixes the outcome the model of `format_buf` has it: the pieces it
                          writes concatenate to the reference text, and a specifier whose argument is
                          missing is an error.  (`format_refines_render`: the same with the reference
-                         renderer applied to the string.)  Restrictions, both explicit:
-                         `wfItemsR` = `wfItems` + widths ≤ 65536 (the model does not pad further:
-                         `⟦huge-width⟧`; the reference is silent only above 100000), and
-                         `args.length < 2^64` (an index ≥ 2^64 does not parse as `usize`).
+                         renderer applied to the string.)  The item lists are exactly those of
+                         `parse_renderText` (`wfItems`, the grammar); no condition on widths: the
+                         reference is silent above 100000 and the model declines (`⟦huge-width⟧`)
+                         only above the same bound.  The one side condition is `args.length < 2^64`
+                         (an index ≥ 2^64 does not parse as `usize`).
                          No restriction on the fill: a radix letter, a digit or `:` before `<`/`>` is
                          the fill in the code as in the grammar.
 
@@ -869,7 +870,7 @@ def bodyOf (widthStr : String) (nf : NumFmt) (obj : Val) : Except String String 
 def padOut (padding : String) (just : Justify) (width : Nat) (obj : Val) (formatted : String) : Except String String :=
   let padding := if padding.isEmpty then " " else padding
   let widthPad := width - formatted.utf8ByteSize
-  if widthPad > 65536 then .error "⟦huge-width⟧" else
+  if widthPad > 100000 then .error "⟦huge-width⟧" else
   let padded := repeatS padding widthPad
   let isInt := match obj with | .int _ => true | _ => false
   let j := match just with
@@ -1093,13 +1094,7 @@ theorem renderItems_field (f : Field) (rest : List Item) (args : List Val) (next
   | some n => exact key n next
 
 
-/-- the restriction of the refinement theorem beyond the grammar: widths the model pads (≤ 65536) -/
-def wfWidth (f : Field) : Bool :=
-  match f.width with
-  | some w => decide (w ≤ 65536)
-  | none => true
-
-theorem widthOf_field (width : Option Nat) (h : ∀ w, width = some w → w ≤ 65536) :
+theorem widthOf_field (width : Option Nat) (h : ∀ w, width = some w → w ≤ 100000) :
     widthOf (String.ofList (optNum width)) = .ok (width.getD 0) := by
   cases width with
   | none => rfl
@@ -1143,23 +1138,24 @@ theorem bodyOf_value (W : String) (v : Val) (s : String) (hv : Spec.Format.value
     rw [hcond]; rfl
 
 
-/-- padding: where the reference renderer fixes the padded text, the model's `padOut` produces it -/
-theorem padOut_spec (f : Field) (hw : wfWidth f = true) (v : Val) (s t : String)
+/-- padding: where the reference renderer fixes the padded text (ASCII, width ≤ 100000), the
+model's `padOut` produces it — the model declines (`⟦huge-width⟧`) only above the same bound -/
+theorem padOut_spec (f : Field) (v : Val) (s t : String)
     (hp : Spec.Format.pad f (isIntV v) s = some t) :
     padOut (String.ofList (optChar f.fill)) (justOf f.just) (f.width.getD 0) v s = .ok t ∧
-      (f.width = none ∨ s.toList.all (·.toNat < 128) = true) := by
+      (f.width = none ∨ s.toList.all (·.toNat < 128) = true) ∧
+      (∀ w, f.width = some w → w ≤ 100000) := by
   obtain ⟨index, fill, just, width, radix⟩ := f
   cases width with
   | none =>
     simp only [Spec.Format.pad, Option.some.injEq] at hp
     subst hp
-    refine ⟨?_, Or.inl rfl⟩
+    refine ⟨?_, Or.inl rfl, fun w hw => by cases hw⟩
     simp only [padOut, Option.getD, Nat.zero_sub, repeatS, String.append_empty, String.empty_append]
     rw [if_neg (by omega)]
     congr 1
     split <;> rfl
   | some w =>
-    have hw' : w ≤ 65536 := by simpa [wfWidth] using hw
     simp only [Spec.Format.pad] at hp
     split at hp
     · cases hp
@@ -1169,7 +1165,8 @@ theorem padOut_spec (f : Field) (hw : wfWidth f = true) (v : Val) (s t : String)
       · rename_i h2
         simp only [Bool.or_eq_true, Bool.not_eq_true', decide_eq_true_eq, not_or, Bool.not_eq_false] at h1
         obtain ⟨ha, hf⟩ := h1
-        refine ⟨?_, Or.inr ha⟩
+        have hw' : w ≤ 100000 := by omega
+        refine ⟨?_, Or.inr ha, fun w' hw'' => by cases hw''; exact hw'⟩
         simp only [Option.some.injEq] at hp
         subst hp
         have hsz : s.utf8ByteSize = s.length := utf8ByteSize_ascii s ha
@@ -1196,37 +1193,36 @@ theorem padOut_spec (f : Field) (hw : wfWidth f = true) (v : Val) (s t : String)
         · rfl
 
 
-theorem wfWidth_le {f : Field} (h : wfWidth f = true) : ∀ w, f.width = some w → w ≤ 65536 := by
-  intro w hw
-  simpa [wfWidth, hw] using h
-
 /-- **one specifier, one argument**: where the reference renderer fixes the text, `format_obj`
 produces it -/
-theorem formatObj_field (f : Field) (h : wfField f = true) (hw : wfWidth f = true) (v : Val) (t : String)
+theorem formatObj_field (f : Field) (h : wfField f = true) (v : Val) (t : String)
     (ht : fieldOut f v = some t) :
     formatObj (String.ofList (optChar f.fill)) (justOf f.just) (String.ofList (optNum f.width))
       (nfOf f.radix) v = .ok t := by
   have hrad := wfField_radix h
-  rw [formatObj_eq, widthOf_field f.width (wfWidth_le hw)]
-  simp only []
+  rw [formatObj_eq]
   cases hr : f.radix with
   | some r =>
     cases v <;> simp only [fieldOut, hr, reduceCtorEq] at ht
     rename_i n
+    obtain ⟨h1, _, h3⟩ := padOut_spec f (.int n) _ t ht
+    rw [widthOf_field f.width h3]
+    simp only []
     rw [bodyOf_radix _ r (hrad r hr) n]
     simp only []
-    exact (padOut_spec f hw (.int n) _ t ht).1
+    exact h1
   | none =>
     simp only [fieldOut, hr] at ht
     cases hv : Spec.Format.valueText v with
     | none => simp [hv] at ht
     | some s =>
       simp only [hv, Option.bind] at ht
-      obtain ⟨h1, h2⟩ := padOut_spec f hw v s t ht
+      obtain ⟨h1, h2, h3⟩ := padOut_spec f v s t ht
       have hc : (String.ofList (optNum f.width)).isEmpty = true ∨ s.toList.all (·.toNat < 128) = true := by
         rcases h2 with h2 | h2
         · left; rw [h2]; rfl
         · right; exact h2
+      rw [widthOf_field f.width h3]
       simp only [nfOf]
       rw [bodyOf_value _ v s hv hc]
       exact h1
@@ -1296,13 +1292,6 @@ theorem closePiece_field (a0 : Val) (args : List Val) (hargs : args.length < 184
 
 /-! ## the refinement, by induction over the items -/
 
-/-- the item lists of the refinement theorem: the grammar (`wfItem`) and widths the model pads -/
-def wfItemR : Item → Bool
-  | .lit _ => true
-  | .field f => wfField f && wfWidth f
-
-def wfItemsR (items : List Item) : Bool := items.all wfItemR
-
 theorem join_snoc (l : List String) (s : String) : String.join (l ++ [s]) = String.join l ++ s := by
   simp [String.join, List.foldl_append]
 
@@ -1316,7 +1305,7 @@ theorem formatLoop_nil (args : List Val) (fuel : Nat) (st : FState) :
 
 theorem refine_core (a0 : Val) (args : List Val) (hargs : args.length < 18446744073709551616) :
     ∀ (items : List Item) (next : Nat) (acc : String) (o : List String),
-      wfItemsR items = true → String.join o.reverse = acc →
+      wfItems items = true → String.join o.reverse = acc →
       ∀ fuel, (renderChars items).length < fuel →
         match renderItems items args next acc with
         | .text t => ∃ pieces, formatLoop (a0 :: args) fuel (renderChars items)
@@ -1332,7 +1321,7 @@ theorem refine_core (a0 : Val) (args : List Val) (hargs : args.length < 18446744
     exact ⟨_, rfl, hj⟩
   | cons it rest ih =>
     intro next acc o hwf hj fuel hf
-    simp only [wfItemsR, List.all_cons, Bool.and_eq_true] at hwf
+    simp only [wfItems, List.all_cons, Bool.and_eq_true] at hwf
     obtain ⟨hw1, hw2⟩ := hwf
     cases it with
     | lit c =>
@@ -1356,8 +1345,7 @@ theorem refine_core (a0 : Val) (args : List Val) (hargs : args.length < 18446744
       rw [e]
       exact this
     | field f =>
-      simp only [wfItemR, Bool.and_eq_true] at hw1
-      obtain ⟨hwf, hww⟩ := hw1
+      have hwf : wfField f = true := hw1
       have hs := steps_field (a0 :: args) f hwf (renderChars rest) o (next + 1)
       have hcs : renderChars (.field f :: rest) = '{' :: (fieldChars f ++ '}' :: renderChars rest) := by
         simp [renderChars, itemChars]
@@ -1381,7 +1369,7 @@ theorem refine_core (a0 : Val) (args : List Val) (hargs : args.length < 18446744
           cases ht : fieldOut f v with
           | none => trivial
           | some t =>
-            rw [hcp, formatObj_field f hwf hww v t ht]
+            rw [hcp, formatObj_field f hwf v t ht]
             simp only []
             exact ih _ (acc ++ t) (t :: o) hw2 (by rw [join_cons_reverse, hj]) n
               (by simp at hf'; omega)
@@ -1390,22 +1378,12 @@ theorem refine_core (a0 : Val) (args : List Val) (hargs : args.length < 18446744
 
 /-! ## the theorems -/
 
-theorem wfItemsR_wfItems {items : List Item} (h : wfItemsR items = true) : wfItems items = true := by
-  simp only [wfItemsR, wfItems, List.all_eq_true] at h ⊢
-  intro it hit
-  have := h it hit
-  cases it with
-  | lit c => rfl
-  | field f =>
-    simp only [wfItemR, Bool.and_eq_true] at this
-    exact this.1
-
 /-- **format_refines** (items form): on the canonical text of a well-formed item list, wherever
 the reference renderer fixes the outcome the model of `format_buf` has it — the pieces written
 concatenate to the reference text, and a specifier without its argument is an error.  (Where the
 reference says `any` nothing is claimed.)  `args.length < 2^64` is the address-space bound: an
 index ≥ 2^64 does not parse as `usize` in the code. -/
-theorem format_refines (items : List Item) (args : List Val) (hwf : wfItemsR items = true)
+theorem format_refines (items : List Item) (args : List Val) (hwf : wfItems items = true)
     (hargs : args.length < 18446744073709551616) :
     (∀ t, renderItems items args 0 "" = .text t →
       ∃ pieces, formatBuf (.str (renderText items) :: args) = .ok pieces ∧ String.join pieces = t) ∧
@@ -1427,13 +1405,13 @@ theorem format_refines (items : List Item) (args : List Val) (hwf : wfItemsR ite
 
 /-- **format_refines**, stated with the reference renderer applied to the format *string*
 (`parse_renderText` reads the items back) -/
-theorem format_refines_render (items : List Item) (args : List Val) (hwf : wfItemsR items = true)
+theorem format_refines_render (items : List Item) (args : List Val) (hwf : wfItems items = true)
     (hargs : args.length < 18446744073709551616) :
     match render (renderText items) args with
     | .text t => ∃ pieces, formatBuf (.str (renderText items) :: args) = .ok pieces ∧ String.join pieces = t
     | .error => ∃ e, formatBuf (.str (renderText items) :: args) = .error e
     | .any => True := by
-  rw [render_renderText items args (wfItemsR_wfItems hwf)]
+  rw [render_renderText items args hwf]
   have h := format_refines items args hwf hargs
   cases hr : renderItems items args 0 "" with
   | text t => exact h.1 t hr
@@ -1450,7 +1428,7 @@ def exItems : List Item :=
    .field { index := some 0, radix := some 'b' }]
 def exArgs : List Val := [.int 255, .str "hi"]
 
-example : wfItemsR exItems = true := by decide
+example : wfItems exItems = true := by decide
 example : renderText exItems = "a{{{} {0:*>6x}}}{:4}{1:x<3}{0:b}" := by decide
 example : parse ("a{{{} {0:*>6x}}}{:4}{1:x<3}{0:b}".length + 1) "a{{{} {0:*>6x}}}{:4}{1:x<3}{0:b}".toList
     = some exItems := by decide
@@ -1471,6 +1449,10 @@ example : ∃ pieces, formatBuf [.str "{:x<6}{:b>6}", .bool true, .null] = .ok p
   (format_refines [.field { fill := some 'x', just := .left, width := some 6 },
       .field { fill := some 'b', just := .right, width := some 6 }] [.bool true, .null]
     (by decide) (by decide)).1 _ rfl
+/-- a width at the reference renderer's own bound is inside the theorem (hypotheses by `decide`) -/
+example : ∀ t, renderItems [.field { width := some 100000 }] [.str "a"] 0 "" = .text t →
+    ∃ pieces, formatBuf [.str "{:100000}", .str "a"] = .ok pieces ∧ String.join pieces = t :=
+  (format_refines [.field { width := some 100000 }] [.str "a"] (by decide) (by decide)).1
 /-- the error side: the third specifier has no argument -/
 example : ∃ e, formatBuf [.str "{}{}{:5}", .int 1, .int 2] = .error e :=
   (format_refines [.field {}, .field {}, .field { width := some 5 }] [.int 1, .int 2]
